@@ -44,11 +44,91 @@ func nextHostLits(p *Program) map[*ast.FuncLit]*FuncInfo {
 	return out
 }
 
+// nextHostMethodUnits: methods whose method value is used as a NextHost (`return it.next`), each with the private
+// helpers it is split into.
+func nextHostMethodUnits(p *Program) [][]*FuncInfo {
+	var out [][]*FuncInfo
+	seen := map[*types.Func]bool{}
+	p.forEachFunc(false, func(fi *FuncInfo) {
+		info := fi.Pkg.TypesInfo
+		calledFun := map[ast.Expr]bool{}
+		ast.Inspect(fi.Decl.Body, func(n ast.Node) bool {
+			if c, ok := n.(*ast.CallExpr); ok {
+				calledFun[ast.Unparen(c.Fun)] = true
+			}
+			sel, ok := n.(*ast.SelectorExpr)
+			if !ok || calledFun[sel] {
+				return true
+			}
+			s := info.Selections[sel]
+			if s == nil || s.Kind() != types.MethodVal {
+				return true
+			}
+			fn, _ := s.Obj().(*types.Func)
+			sig, _ := s.Type().(*types.Signature)
+			if fn == nil || sig == nil || seen[fn] || sig.Params().Len() != 0 || sig.Results().Len() != 1 || typeNameOf(sig.Results().At(0).Type()) != "SelectedHost" {
+				return true
+			}
+			if m := p.FuncOf(fn); m != nil && m.Decl.Body != nil {
+				seen[fn] = true
+				out = append(out, p.unitsOf(m))
+			}
+			return true
+		})
+	})
+	return out
+}
+
 func c11r1(p *Program, r *Report) {
 	n := 0
+	type unit struct {
+		g     *Graph
+		fi    *FuncInfo
+		name  string
+		group []*FuncInfo
+	}
+	var units []unit
 	for lit, fi := range nextHostLits(p) {
+		units = append(units, unit{p.GraphOfLit(fi, lit), fi, fi.Name + " NextHost", nil})
+	}
+	for _, grp := range nextHostMethodUnits(p) {
+		for _, u := range grp {
+			// only the parts that produce hosts
+			ft := u.Decl.Type
+			if ft.Results == nil || len(ft.Results.List) != 1 {
+				continue
+			}
+			ts := u.Pkg.TypesInfo.TypeOf(ft.Results.List[0].Type).String()
+			if !strings.HasSuffix(ts, "HostInfo") && !strings.HasSuffix(ts, "SelectedHost") {
+				continue
+			}
+			units = append(units, unit{p.GraphOf(u), u, u.Name + " (NextHost generator)", grp})
+		}
+	}
+	for _, u := range units {
+		fi, g := u.fi, u.g
 		info := fi.Pkg.TypesInfo
-		g := p.GraphOfLit(fi, lit)
+		inGroup := func(c *ast.CallExpr) bool {
+			fn := calleeOf(info, c)
+			for _, m := range u.group {
+				if fn != nil && m.Obj == fn {
+					return true
+				}
+			}
+			return false
+		}
+		fromGroup := func(e ast.Expr) bool { // a variable bound to the result of another part of the generator
+			id, ok := ast.Unparen(e).(*ast.Ident)
+			if !ok || u.group == nil {
+				return false
+			}
+			if d := localDefMulti(info, fi, id); d != nil {
+				if c, isC := ast.Unparen(d).(*ast.CallExpr); isC && inGroup(c) {
+					return true
+				}
+			}
+			return false
+		}
 		facts := g.GuardFacts()
 		for _, e := range g.Exits() {
 			rs, ok := e.Node.(*ast.ReturnStmt)
@@ -63,13 +143,29 @@ func c11r1(p *Program, r *Report) {
 					isConv = false
 				}
 			}
-			name := fi.Name + " NextHost returns " + exprStr(res)
+			name := u.name + " returns " + exprStr(res)
+			isHostPtr := false
+			if t := info.TypeOf(res); t != nil && strings.HasSuffix(t.String(), "HostInfo") {
+				isHostPtr = true
+			}
 			switch {
+			case isConv && len(conv.Args) == 1 && fromGroup(conv.Args[0]):
+				n++
+				r.OK(rs, name, "the host comes from another part of the generator, whose returns are checked there")
 			case isConv && len(conv.Args) == 1:
 				n++
 				f, _ := facts.Before(rs)
 				v, known := f.KnownStr(exprStr(conv.Args[0]) + ".IsUp()")
 				r.Check(known && v, rs, name, "dominated by "+exprStr(conv.Args[0])+".IsUp()", "a host is offered without having been found up: queries are sent to nodes the driver knows are down")
+			case isHostPtr && fromGroup(res):
+				n++
+				r.OK(rs, name, "the host comes from another part of the generator, whose returns are checked there")
+			case isHostPtr:
+				// a generator part that hands a *HostInfo to the part that converts it
+				n++
+				f, _ := facts.Before(rs)
+				v, known := f.KnownStr(exprStr(res) + ".IsUp()")
+				r.Check(known && v, rs, name, "dominated by "+exprStr(res)+".IsUp()", "a host is offered without having been found up: queries are sent to nodes the driver knows are down")
 			default:
 				// a host produced by another NextHost (already filtered) or by the third-party host pool
 				if id, ok := res.(*ast.Ident); ok {
@@ -78,6 +174,9 @@ func c11r1(p *Program, r *Report) {
 				} else if dc, ok := res.(*ast.CallExpr); ok && typeNameOf(info.TypeOf(dc.Fun)) == "NextHost" {
 					n++
 					r.OK(rs, name, "delegates to another NextHost (filtered there)")
+				} else if dc, ok := res.(*ast.CallExpr); ok && inGroup(dc) {
+					n++
+					r.OK(rs, name, "delegates to another part of the generator, whose returns are checked there")
 				} else if cl, ok := res.(*ast.CompositeLit); ok && typeNameOf(info.TypeOf(cl)) == "selectedHostPoolHost" {
 					n++
 					r.OK(rs, name, "frozen exception: hostPoolHostPolicy delegates liveness to the go-hostpool library")
@@ -581,62 +680,132 @@ func c11r4(p *Program, r *Report) {
 	info := rr.Pkg.TypesInfo
 	shiftObj := paramObj(info, rr.Decl.Type, 0)
 	hostsObj := paramObj(info, rr.Decl.Type, 1)
-	found := false
-	ast.Inspect(rr.Decl.Body, func(x ast.Node) bool {
-		ix, ok := x.(*ast.IndexExpr)
-		if !ok {
-			return true
-		}
-		var inner ast.Expr
-		if in2, ok := ast.Unparen(ix.X).(*ast.IndexExpr); ok && isIdentOf(info, in2.X, hostsObj) {
-			inner = in2
-		} else if lid, ok := ast.Unparen(ix.X).(*ast.Ident); ok {
-			// layer := hosts[k]; layer[...]
-			if d := localDef(info, rr, lid); d != nil {
-				if in3, ok := ast.Unparen(d).(*ast.IndexExpr); ok && isIdentOf(info, in3.X, hostsObj) {
-					inner = lid
+	// the generator: closures of roundRobbin, or the method (with its helpers) of an iterator object whose fields
+	// roundRobbin initialises from its parameters
+	type genUnit struct {
+		fi   *FuncInfo
+		body ast.Node
+		g    *Graph
+	}
+	var gens []genUnit
+	isShift := func(e ast.Expr) bool { return isIdentOf(info, e, shiftObj) }
+	isHosts := func(e ast.Expr) bool { return isIdentOf(info, e, hostsObj) }
+	hostsName := hostsObj.Name()
+	for _, lit := range funcLitsIn(rr.Decl.Body) {
+		gens = append(gens, genUnit{rr, lit, p.GraphOfLit(rr, lit)})
+	}
+	if len(gens) == 0 {
+		var shiftF, hostsF types.Object
+		ast.Inspect(rr.Decl.Body, func(x ast.Node) bool {
+			cl, ok := x.(*ast.CompositeLit)
+			if !ok {
+				return true
+			}
+			for _, el := range cl.Elts {
+				kv, ok := el.(*ast.KeyValueExpr)
+				if !ok {
+					continue
+				}
+				k, ok := kv.Key.(*ast.Ident)
+				if !ok {
+					continue
+				}
+				if isIdentOf(info, kv.Value, shiftObj) {
+					shiftF = info.Uses[k]
+				}
+				if isIdentOf(info, kv.Value, hostsObj) {
+					hostsF = info.Uses[k]
 				}
 			}
-		}
-		if inner == nil {
 			return true
-		}
-		found = true
-		// index: (… shift …) % size, size == len(hosts[layer])
-		b, ok := ast.Unparen(ix.Index).(*ast.BinaryExpr)
-		usesShift := false
-		if ok && b.Op == token.REM {
-			ast.Inspect(b.X, func(m ast.Node) bool {
-				if id, ok := m.(*ast.Ident); ok && info.Uses[id] == shiftObj {
-					usesShift = true
+		})
+		if shiftF != nil && hostsF != nil && neverStoredField(p, shiftF) && neverStoredField(p, hostsF) {
+			for _, grp := range nextHostMethodUnits(p) {
+				uses := false
+				for _, u := range grp {
+					ast.Inspect(u.Decl.Body, func(x ast.Node) bool {
+						if sel, ok := x.(*ast.SelectorExpr); ok && info.Uses[sel.Sel] == hostsF {
+							uses = true
+							hostsName = exprStr(sel)
+						}
+						return true
+					})
 				}
-				return true
-			})
+				if !uses {
+					continue
+				}
+				for _, u := range grp {
+					gens = append(gens, genUnit{u, u.Decl.Body, p.GraphOf(u)})
+				}
+			}
+			isShift = func(e ast.Expr) bool {
+				sel, ok := ast.Unparen(e).(*ast.SelectorExpr)
+				return ok && info.Uses[sel.Sel] == shiftF
+			}
+			isHosts = func(e ast.Expr) bool {
+				sel, ok := ast.Unparen(e).(*ast.SelectorExpr)
+				return ok && info.Uses[sel.Sel] == hostsF
+			}
 		}
-		sizeOK := false
-		if ok {
-			want := "len(" + exprStr(inner) + ")"
-			if exprStr(b.Y) == want {
-				sizeOK = true
-			} else if id, isId := ast.Unparen(b.Y).(*ast.Ident); isId {
-				ast.Inspect(rr.Decl.Body, func(m ast.Node) bool {
-					if as, ok := m.(*ast.AssignStmt); ok && len(as.Lhs) == 1 && len(as.Rhs) == 1 && isIdentOf(info, as.Lhs[0], info.Uses[id]) && exprStr(as.Rhs[0]) == want {
-						sizeOK = true
+	}
+	found := false
+	for _, gu := range gens {
+		ast.Inspect(gu.body, func(x ast.Node) bool {
+			ix, ok := x.(*ast.IndexExpr)
+			if !ok {
+				return true
+			}
+			var inner ast.Expr
+			if in2, ok := ast.Unparen(ix.X).(*ast.IndexExpr); ok && isHosts(in2.X) {
+				inner = in2
+			} else if lid, ok := ast.Unparen(ix.X).(*ast.Ident); ok {
+				// layer := hosts[k]; layer[...]
+				if d := localDef(info, gu.fi, lid); d != nil {
+					if in3, ok := ast.Unparen(d).(*ast.IndexExpr); ok && isHosts(in3.X) {
+						inner = lid
+					}
+				}
+			}
+			if inner == nil {
+				return true
+			}
+			found = true
+			// index: (… shift …) % size, size == len(hosts[layer])
+			b, ok := ast.Unparen(ix.Index).(*ast.BinaryExpr)
+			usesShift := false
+			if ok && b.Op == token.REM {
+				ast.Inspect(b.X, func(m ast.Node) bool {
+					if e, ok := m.(ast.Expr); ok && isShift(e) {
+						usesShift = true
 					}
 					return true
 				})
 			}
-		}
-		r.Check(ok && usesShift && sizeOK, ix, "roundRobbin rotates every layer by the shift modulo that layer's size", "hosts[layer][(shift+k) % len(hosts[layer])]", "the host index of a layer is not (shift + k) modulo that layer's own size: tiers do not rotate their starting host (or index out of range)")
-		return true
-	})
+			sizeOK := false
+			if ok {
+				want := "len(" + exprStr(inner) + ")"
+				if exprStr(b.Y) == want {
+					sizeOK = true
+				} else if id, isId := ast.Unparen(b.Y).(*ast.Ident); isId {
+					ast.Inspect(gu.body, func(m ast.Node) bool {
+						if as, ok := m.(*ast.AssignStmt); ok && len(as.Lhs) == 1 && len(as.Rhs) == 1 && isIdentOf(info, as.Lhs[0], info.Uses[id]) && exprStr(as.Rhs[0]) == want {
+							sizeOK = true
+						}
+						return true
+					})
+				}
+			}
+			r.Check(ok && usesShift && sizeOK, ix, "roundRobbin rotates every layer by the shift modulo that layer's size", "hosts[layer][(shift+k) % len(hosts[layer])]", "the host index of a layer is not (shift + k) modulo that layer's own size: tiers do not rotate their starting host (or index out of range)")
+			return true
+		})
+	}
 	if !found {
 		r.Unresolved("roundRobbin: no hosts[layer][i] access")
 	}
 	// the generator reports exhaustion (nil) only after every layer was visited: an empty nearer layer must not
 	// end the walk while farther layers still hold hosts
-	for _, lit := range funcLitsIn(rr.Decl.Body) {
-		g := p.GraphOfLit(rr, lit)
+	for _, gu := range gens {
+		g := gu.g
 		facts := g.GuardFacts()
 		for _, e := range g.Exits() {
 			rs, ok := e.Node.(*ast.ReturnStmt)
@@ -647,10 +816,10 @@ func c11r4(p *Program, r *Report) {
 			allVisited := false
 			for atom, v := range f.m {
 				a := strings.ReplaceAll(atom, " ", "")
-				if v && (strings.Contains(a, "==len("+hostsObj.Name()+")") || strings.Contains(a, "len("+hostsObj.Name()+")==")) {
+				if v && (strings.Contains(a, "==len("+hostsName+")") || strings.Contains(a, "len("+hostsName+")==")) {
 					allVisited = true
 				}
-				if !v && strings.HasSuffix(a, "<len("+hostsObj.Name()+")") && !strings.Contains(a, "&&") {
+				if !v && strings.HasSuffix(a, "<len("+hostsName+")") && !strings.Contains(a, "&&") {
 					allVisited = true
 				}
 			}
@@ -716,4 +885,26 @@ func c11r4(p *Program, r *Report) {
 	if n < 3 {
 		r.Unresolved("fewer than 3 roundRobbin call sites (%d)", n)
 	}
+}
+
+// neverStoredField: the field is only initialised in composite literals, never assigned afterwards.
+func neverStoredField(p *Program, f types.Object) bool {
+	ok := true
+	p.forEachFunc(false, func(fi *FuncInfo) {
+		info := fi.Pkg.TypesInfo
+		ast.Inspect(fi.Decl.Body, func(x ast.Node) bool {
+			for _, l := range assignedLHS(x) {
+				if sel, isS := ast.Unparen(l).(*ast.SelectorExpr); isS && info.Uses[sel.Sel] == f {
+					ok = false
+				}
+			}
+			if u, isU := x.(*ast.UnaryExpr); isU && u.Op == token.AND {
+				if sel, isS := ast.Unparen(u.X).(*ast.SelectorExpr); isS && info.Uses[sel.Sel] == f {
+					ok = false
+				}
+			}
+			return true
+		})
+	})
+	return ok
 }
